@@ -10,7 +10,9 @@
 
    Repairs already applied to the Go tree that this model follows:
      ec_volume.go SearchNeedleFromSortedIndex passes m*NeedleMapEntrySize (was
-     m*NeedleHeaderSize = 16*m, wrong when the entry size is 17) to the callback. *)
+     m*NeedleHeaderSize = 16*m, wrong when the entry size is 17) to the callback;
+     needle_map_sorted_file.go NewSortedFileNeedleMap opens the .sdx read-write and sets
+     indexFileOffset to the .idx size (see sorted_delete below). *)
 From Coq Require Import List NArith ZArith Bool.
 Import ListNotations.
 Local Open Scope N_scope.
@@ -237,10 +239,10 @@ Definition sorted_get (osz : N) (sdx : list N) (key : N) : option (N * Z) :=
   | _ => None
   end.
 (* Delete(key, offset): (error, .idx, indexFileOffset, .sdx).
-   - m.dbFile comes from os.Open: read-only, so MarkNeedleDeleted's WriteAt fails;
-   - appendToIndexFile writes at m.indexFileOffset, which NewSortedFileNeedleMap never sets
-     (it stays 0, unlike the other two map kinds): the "appended" tombstone is written over
-     the beginning of the .idx; [ioff] is that field (0 for a freshly opened map). *)
+   Repaired NewSortedFileNeedleMap: m.dbFile is opened O_RDWR (was os.Open: MarkNeedleDeleted's
+   WriteAt failed), and m.indexFileOffset is initialised to the size of the .idx (was left 0:
+   the "appended" tombstone overwrote the beginning of the .idx).  [ioff] is that field; for a
+   freshly opened map it is [file_size idx]. *)
 Definition sorted_delete (osz : N) (idx : list N) (ioff : N) (sdx : list N) (key off : N)
   : ecode * list N * N * list N :=
   match search_sorted osz sdx (file_size sdx) key with
@@ -251,12 +253,6 @@ Definition sorted_delete (osz : N) (idx : list N) (ioff : N) (sdx : list N) (key
       else
         (* appendToIndexFile: WriteAt(bytes, indexFileOffset); indexFileOffset += written *)
         let idx' := write_at idx ioff (enc_entry osz {| e_key := key; e_off := off; e_size := tombstone |}) in
-        let '(e, sdx') := search_mark false osz sdx (file_size sdx) key in
+        let '(e, sdx') := search_mark true osz sdx (file_size sdx) key in
         (e, idx', ioff + entry_size osz, sdx')
-  end.
-(* known finding 0 of C07: a Delete of a key that is live in the sorted index *)
-Definition trig_sorted_delete_live (osz : N) (sdx : list N) (key : N) : bool :=
-  match search_sorted osz sdx (file_size sdx) key with
-  | SFound _ _ size => negb (size_is_deleted size)
-  | _ => false
   end.
